@@ -95,5 +95,5 @@ CASES = [
 ] + [
     {"id": "benign10-good-%s" % m, "props": ALL, "expect": "quiet", "patches": [("selftest/benign/g10-%s.diff" % m, False)],
      "note": "round-10 pair %s-p without its slip (a small behaviour-preserving commit, see seeded/%s-p/NOTES.md)" % (m, m)}
-    for m in ("C01", "C03", "C05", "C07", "C09", "C11", "C12", "C13", "C15", "C16", "C17", "C18", "C19", "C20")
+    for m in ("C01", "C03", "C05", "C06", "C07", "C09", "C11", "C12", "C13", "C15", "C16", "C17", "C18", "C19", "C20")
 ]
